@@ -233,6 +233,40 @@ def run_numeric(chk, exe, rng, broken, scale=1):
     if rc1 or rc2 or len(o2) != len(back):
         chk.violation('sanitizer-rt', 'harness died in round trip run: %s' % (e1 + e2)[-800:], rt_lines[:1])
         return
+    # units: admittances in microsiemens, impedances in milliohms or megohms — a network is as regular in one unit as in another.
+    # Z and Y of one well-conditioned network (diagonally dominant, condition of a few units) at scales from 1e-6 to 1e6: the two must be
+    # inverses of each other to rounding, separately and in place (every determinant is tiny or huge here: 1e-6 at n = 4 gives 1e-24)
+    sl, scs = [], []
+    for fn in ('vnaconv_ztoyn', 'vnaconv_ytozn'):
+        if fn not in NFUNCS:
+            continue
+        for k in range(max(20, per)):
+            n = rng.choice([1, 2, 3, 4, 5, 6])
+            al = rng.choice([1e-6, 1e-4, 1e-3, 1e-2, 1.0, 1e2, 1e3, 1e4, 1e6])
+            M = np.array([[rc(rng, 0.25) for _ in range(n)] for _ in range(n)], complex).reshape(n, n)
+            M = (M + np.diag([n * (1.0 + rng.random()) * np.exp(1j * rng.uniform(-1.2, 1.2)) for _ in range(n)])) * al
+            z0 = z0_vector(rng, n)
+            mode = 'alias' if k % 3 == 2 else 'sep'
+            scs.append((fn, n, mode, al, M))
+            sl.append('convn %s %d %s %s %s' % (fn, n, mode, ' '.join(vlib.c2h(x) for x in M.flatten()), ' '.join(vlib.c2h(x) for x in z0)))
+    so, src_, se = vlib.run_lines(exe, sl)
+    if src_ != 0 or len(so) != len(sl):
+        chk.violation('sanitizer-scaled', 'harness died in the scaled Z/Y run: %s' % se[-800:], sl[:len(so) + 1][-1:])
+        return
+    for (fn, n, mode, al, M), l, o in zip(scs, sl, so):
+        chk.evaluations += 1
+        w = o.split()
+        X = np.array(vlib.hs2c(w[1:]), complex).reshape(n, n) if w and w[0] == 'ok' and len(w) == 1 + 2 * n * n else None
+        with np.errstate(all='ignore'):
+            err = float(np.abs(X @ M - np.eye(n)).max()) if X is not None else float('inf')
+        if not err <= 1e-10 * np.linalg.cond(M):
+            nv += 1
+            if nv <= 3:
+                chk.violation('scaled-%s' % fn, '%s n=%d (%s), entries of order %g: result times input differs from the identity by %.3e (condition of the input %.1f)' % (
+                    fn, n, mode, al, err, np.linalg.cond(M)), [l, '# ' + o[:300]])
+        else:
+            chk.count('scaled_inverse_ok')
+            chk.distinct.add(('scaled', fn, n, mode, al))
     for (x, y, m, z0), oa, ob, l1, l2 in zip(rt_cases, o1, o2, rt_lines, back):
         chk.evaluations += 1
         mid = vlib.hs2c(oa.split()[1:])
